@@ -128,6 +128,7 @@ def run(chk):
     else:
         chk.violation("C10.limits.config", hp, "max_trailers = self.max_headers - len(self._lines)", "trailer budget", "the number of trailer fields is not bounded by the header budget")
     hunt3_rules(chk, repo, hp)
+    hunt4_rules(chk, repo)
 
 
 def hunt3_rules(chk, repo, hp):
@@ -214,6 +215,25 @@ def hunt3_rules(chk, repo, hp):
     chk.expect_count("C10.total.lower", nl, 5, "comparisons of <token>.lower() in http_parser.py")
 
 
+def hunt4_rules(chk, repo):
+    """Rule written after the fourth defect hunt (F256): a parser that raised is not fed again."""
+    WP = "aiohttp/web_protocol.py"
+    dr = repo.func(WP, "RequestHandler.data_received")
+    feeds = [c for c in prog.calls_in(dr.node) if norm.raw(c.func) == "self._parser.feed_data"]
+    if not feeds:
+        chk.analysis_error("C10.retention.latch: RequestHandler.data_received no longer feeds self._parser")
+        return
+    for c in feeds:
+        hs = [h for t_, h in K.enclosing_try_handlers(c) if prog.in_body_of(c, t_, "body") and "HttpProcessingError" in PC.handler_types(h)]
+        latches = {norm.raw(a.targets[0]) for h in hs for a in ast.walk(h) if isinstance(a, ast.Assign) and isinstance(a.value, ast.Constant) and a.value.value is True and norm.raw(a.targets[0]).startswith("self._")}
+        guarded = [l_ for l_ in latches if PC.has_lit(PC.pc(K.stmt_of(c), raw=True), l_, False) is not None]
+        if guarded:
+            chk.ok("C10.retention.latch", c, f"data_received(): once feed_data() has raised ({guarded[0]} set) the parser is not fed again - the queued 400 closes the connection")
+        else:
+            chk.violation("C10.retention.latch", c, K.short(c, 50), "if self._parse_failed: return   (flag set in `except HttpProcessingError`)",
+                          "after feed_data() raised (LineTooLong, too many headers) every later read is fed to the same parser again: it prepends what it retained, raises again and queues another 400 - behind a slow pipelined request one endless request line grows the retained tail to megabytes against max_line_size=8190 and queues a 400 per read")
+
+
 def _len_gt(lit, subject: str) -> bool:
     """lit text is `len(<subject>...) ... > L` or `<count expr of subject> > L`."""
     try:
@@ -273,7 +293,8 @@ def retention(chk, repo, rule="C10.retention"):
                     first = [v for d, v in ds if isinstance(d, ast.Assign) and v is not None]
                     rest = [d for d, v in ds if not isinstance(d, ast.Assign)]
                     return bool(first) and all(norm.raw(v) == f"len({vtxt})" for v in first) and all(isinstance(d, ast.AugAssign) and isinstance(d.op, ast.Sub) for d in rest)
-                if val is not None and any((not l.pos) and (_len_gt(l, vtxt) or _bound_local(l)) for l in PC.units(cl)):
+                vtxts = {vtxt, norm.text(val, st)} if val is not None else set()  # a local that was measured stands for its value in the path condition
+                if val is not None and any((not l.pos) and (any(_len_gt(l, v_) for v_ in vtxts) or _bound_local(l)) for l in PC.units(cl)):
                     reasons.append(f"`{vtxt}` passed its length limit before being stored")
                 if val is not None and any(l.pos and M.match_text("len($C) < len($S)", l.text) is not None for l in PC.units(cl)):
                     reasons.append("at most a partial line terminator is stored")
@@ -291,16 +312,8 @@ def retention(chk, repo, rule="C10.retention"):
                         break
                 if follow:
                     reasons.append("followed by the limit check " + " / ".join(follow))
-                # (d) checked at re-entry (first thing the next call does)
-                if attr == "_chunk_tail":
-                    pp = repo.func(MOD, "HttpPayloadParser.feed_data")
-                    reentry = [n for n, cls in K.raises_in(pp.node) if any(l.pos and _len_gt(l, "self._chunk_tail") for l in PC.units(PC.pc(n)))]
-                    loop = [w for w in ast.walk(pp.node) if isinstance(w, ast.While)]
-                    if reentry and all(reentry[0].lineno < w.lineno for w in loop if PC.has_lit(PC.pc(w), "self._type == ParseState.PARSE_CHUNKED", True) is not None):
-                        skip_state = [l.text for l in PC.units(PC.pc(reentry[0])) if not l.pos and M.match_text("self._chunk == $S", l.text) is not None]
-                        state_here = [l.text for l in PC.units(cl) if l.pos and M.match_text("self._chunk == $S", l.text) is not None]
-                        if not (set(skip_state) & set(state_here)):
-                            reasons.append("length-checked at re-entry before anything is appended to it")
+                # (a check at re-entry only - first thing the next call does - is not enough: until then the over-long partial line is held, and a
+                #  peer that stalls after it gets no 400: F257)
                 # (e) allow-list: pauses bound the retained bytes by one transport read
                 if PC.has_lit(cl, "self._paused", True) is not None:
                     reasons.append("stored while the reader is paused: reading from the transport is paused too, the remainder is at most one read (allow-listed)")
